@@ -4,7 +4,7 @@
    how='inner' some permutation of the matching pairs) is an explicit hypothesis, exercised by
    the correspondence run on every generated key pair. *)
 From Coq Require Import ZArith List Lia Bool ZifyBool Permutation.
-From EV Require Import Res Arr JoinSpec JoinBase MapStream MapStreamSpec MapHelpers MapIndexedHelper
+From EV Require Import Res Arr JoinSpec JoinBase MapStream MapStreamSpec MapStreamBase MapHelpers MapIndexedHelper
   SessionMerge SessionMergeSpec SessionMergeBase SessionMergeTop.
 Import ListNotations.
 Open Scope Z_scope.
